@@ -29,15 +29,18 @@ TRUSTED = [
     "the output LAW at a value is the ideal real-valued law with the scale the sampler uses (Laplace density, its "
     "truncation with point masses at the bounds, its folding, its restriction to the domain; two-sided geometric pmf; "
     "normal; uniform); that the samplers realise these laws is C03's business",
-    "cited as hypothesis: the second moment of the standard normal is 1 (gaussian_variance)",
+    "no cited moment facts left: the normal moments are Mathlib's (gaussian_variance_normal); the Laplace, truncated, "
+    "bounded-domain and folded integrals are evaluated in Lean",
     "the direct check integrates the densities in closed form with python `decimal` at 60 digits (harness/contlaw.py); "
     "search support and residual validation, not an obligation",
 ]
 UNPROVED = [
     "floating-point evaluation of the closed forms (cancellation in `value**2 + ... - (bias + value)**2`) is checked on "
     "every run against the 60-digit moments, not proved; the theorems are over the reals",
-    "truncated / folded / bounded-domain Laplace moment identities: proved `_partial` — the integral evaluations "
-    "(pieces of x^j e^{-|x-v|/b}) enter as hypotheses; the equality with the law's moments is validated numerically",
+    "truncated / bounded-domain / folded Laplace: PROVED hypothesis-free for a value inside a finite domain and scale > 0 "
+    "(truncated_moments, bounded_domain_moments, folded_bias: law as a measure, all integrals evaluated); outside the "
+    "domain / with infinite bounds the closed forms are wrong (open known findings; truncated_moments_full stays an "
+    "unproved def) and the equality is only compared numerically there",
     "monotonicity of the analytic Gaussian variance (root of a transcendental equation) is checked on the "
     "implementation only",
 ]
